@@ -88,5 +88,6 @@ fn main() {
             r.failing.push(json!({"id": "witness-aborted", "input": {"group": name, "cases_completed_in_group": r.cases - 1 - before}, "expected": "every scenario of the group can be set up and judged", "observed": msg.chars().take(600).collect::<String>()}));
         }
     }
-    println!("{}", json!({"property": prop, "cases": r.cases, "failing": r.failing, "watch_passed": r.watch_passed}));
+    // (the commands some witnesses run write to this process's stdout: start the result on a fresh line)
+    println!("\n{}", json!({"property": prop, "cases": r.cases, "failing": r.failing, "watch_passed": r.watch_passed}));
 }
